@@ -2,3 +2,12 @@ claim("C01", "exploration",
       "Lock-step comparison of every public result with a reference sorted map over thousands of seeded histories (overwrites at lower/equal/higher priority, deletes, invalid items, several collections, file-backed and memory-only) plus systematic enumeration of every placement of Flush/Evict/Reopen in short base histories; a full read-back of every handle exposes collateral damage at the step that caused it. Exploration is the right level: the input space is unbounded, the oracle is exact.",
       "Trusted: the reference model (maps + sort), the in-memory StoreFile, Go runtime. Single goroutine; items not modified after SetItem.",
       "runtime monitoring: differential lock-step execution against an executable reference model", "5/C01")
+
+claim("C08", "exploration",
+      "Complete grid (flushes 0..6 x pending changes x reopen-before-revert x 1..f+2 consecutive reverts, i.e. always past the first flush) over random contents plus random multi-collection histories; after every revert the store, the file length, a second store opened on a copy of the file and the independent decoder are compared with the model's stack of flushed states; termination is decided by a logical bound on root-scan iterations counted through a hook, not by a clock.",
+      "Trusted: reference model, in-memory StoreFile, independent decoder. Snapshots older than a revert of the original are closed first (README). Collection.Write()/failed Flush between Flush and FlushRevert is exercised under C07, not here.",
+      "runtime monitoring: model-stack comparison after every revert + hook-counted logical termination bound", "5/C08")
+claim("C16", "exploration",
+      "Every collection size in a contiguous range (0..130 quick, 0..600 thorough) plus the sizes around every multiple of the maximum block count, three key shapes, memory-only and flushed+evicted+reopened stores: Len and the multiset of keys delivered by VisitItemsAscendBlockEx (8 block manglers, both value modes) and VisitItemsRandom must be each key exactly once. Exhaustive in n over the stated range, which is where the block arithmetic can go wrong.",
+      "Trusted: multiset comparison against the inserted key set. Block manglers are permutations.",
+      "runtime monitoring: exact-cover (multiset) oracle over an exhaustive size range", "5/C16")
